@@ -1,0 +1,26 @@
+//go:build verif
+
+// Verification hooks (build tag "verif" only; add-only; nothing here is compiled into normal builds).
+package standard
+
+import (
+	"context"
+	"io"
+
+	builderclient "github.com/attestantio/go-builder-client"
+	"github.com/attestantio/go-eth2-client/api"
+	"github.com/rs/zerolog"
+)
+
+// VerifC20UnblindProposal is unblindProposal on a service that has nothing but a logger writing to
+// logWriter at the given level.
+func VerifC20UnblindProposal(ctx context.Context,
+	logWriter io.Writer,
+	logLevel zerolog.Level,
+	proposal *api.VersionedSignedProposal,
+	providers []builderclient.UnblindedProposalProvider,
+) error {
+	s := &Service{log: zerolog.New(logWriter).Level(logLevel)}
+
+	return s.unblindProposal(ctx, proposal, providers)
+}
